@@ -67,7 +67,7 @@ pub const UNARY: [I; 10] = [
 ];
 
 /// Appendix C of DESIGN.md, transcribed once from the explicit match arms of the runtime.
-pub fn definedness(ins: I, l: T, r: T, rv: &V) -> Def {
+pub fn definedness(ins: I, l: T, r: T, lv: &V, rv: &V) -> Def {
     use Def::*;
     let d = |b: bool| if b { Defined } else { Undefined };
     match ins {
@@ -93,7 +93,12 @@ pub fn definedness(ins: I, l: T, r: T, rv: &V) -> Def {
             let container = matches!(l, T::Pair | T::List | T::CharList | T::ByteList | T::Range | T::Concatenation | T::Slice);
             let by_number = container && r == T::Number;
             // text, bytes and ranges have no keyed lookup: those cells have no defined result
-            let by_symbol = matches!(l, T::Pair | T::List | T::Concatenation | T::Slice) && r == T::Symbol;
+            // a slice looks keys up in what it slices: only lists and concatenations hold keyed items
+            let sliced_keyed = match lv {
+                V::Slice(inner, _) => matches!(**inner, V::List(_) | V::Concat(..)),
+                _ => true,
+            };
+            let by_symbol = matches!(l, T::Pair | T::List | T::Concatenation | T::Slice) && r == T::Symbol && sliced_keyed;
             d(merge || by_number || by_symbol)
         }
         I::Apply => d(matches!(
@@ -164,7 +169,7 @@ fn check_cell<D: Store + Mk>(ins: I, a: &V, b: Option<&V>, hk: HostKind, acc: &m
         Some(v) => (v.type_of(), v.clone()),
         None => (T::Unit, V::Unit),
     };
-    let def = definedness(ins, lt, rt, &rvv);
+    let def = definedness(ins, lt, rt, a, &rvv);
     let cell = if arity(ins) == 1 { format!("{:?}({})", ins, tname(lt)) } else { format!("{:?}({},{})", ins, tname(lt), tname(rt)) };
     acc.seen("cells", cell.clone());
     if def == Def::Undefined {
